@@ -825,7 +825,10 @@ impl<'a> LineBreaker<'a> {
                             }
                             Kern(kern) => {
                                 if kern.kind == ds::KernKind::Explicit {
-                                    diffs.width -= kern.width;
+                                    // The kern is discarded after the break: it is part of what
+                                    // precedes the next line (TeX subtracts it from break_width,
+                                    // which has the opposite sign convention).
+                                    diffs.width += kern.width;
                                 }
                             }
                             _ => {}
